@@ -25,13 +25,10 @@ Lemma claims_iff p e :
   forallb (fun co => subclass (fst co) CException) (p_handlers p) = true ->
   claims (handlers p) e = isinstance e CException.
 Proof.
-  intros W. unfold claims, handlers. apply eq_true_iff_eq. rewrite existsb_exists. split.
-  - intros (h & Hin & Hh). apply in_app_or in Hin. destruct Hin as [Hin|Hin].
-    + apply in_map_iff in Hin. destruct Hin as (co & <- & Hco).
-      rewrite forallb_forall in W. specialize (W co Hco). eapply subclass_trans; [exact Hh | exact W].
-    + pose proof table_within_Exception as T. rewrite forallb_forall in T. eapply subclass_trans; [exact Hh | exact (T h Hin)].
-  - intros H. destruct catch_all_in as (h & Hin & Hc). exists h. split; [apply in_or_app; right; exact Hin|].
-    rewrite Hc. exact H.
+  intros W. rewrite claims_handlers. unfold claimed, user_claim.
+  destruct (find _ (p_handlers p)) as [co|] eqn:F; [|reflexivity].
+  apply find_some in F. destruct F as [Hin Hi]. rewrite forallb_forall in W. symmetry.
+  eapply subclass_trans; [exact Hi | exact (W co Hin)].
 Qed.
 
 (* ---------- the delivered events ---------- *)
